@@ -171,7 +171,9 @@ CLAIMED = {
              "whatever a datagram does to a QUIC session, the frames it has collected for the export stay in place and new ones are only added behind them (the datagrams "
              "built from them follow by C02_one_output_per_input_datagram when capture times differ), C08_quic_session_identity, and C08_quic -- the whole run, TLS and QUIC "
              "mixed, key-log blocks anywhere: cut after any item; the cut run succeeds when the full run does, every QUIC session of the cut run is the same-position session of "
-             "the full run with the same identity, its collected frames are a prefix and so is, per direction, with and without -a, the byte stream of the datagrams built. "
+             "the full run with the same identity, its collected frames are a prefix and so is, per direction, with and without -a, the byte stream of the datagrams built; "
+             "C08_quic_datagrams: the datagrams built from a prefix of the frames are those built from all of them, the last one possibly a beginning (same time and "
+             "direction, prefix of the payload) of its counterpart. "
              "Closed under the global context. The check sweeps every cut position "
              "of TLS captures (plain and with duplicates, coalesced/partial retransmissions, late segments) and of QUIC captures, alone and interleaved.",
         note="Trusted: Coq kernel; models of main.run, Session, OutputBuilder, QuicSession tied by byte-exact output correspondence; key log by file or by blocks inside the cut part; "
